@@ -238,10 +238,28 @@ def r12_2(ctx):
     return out
 
 
+def is_pair_ty(ctx, tyid):
+    """(usize, usize), or a crate-local struct of exactly two usize fields (a named pair)"""
+    t = ctx.T[tyid]
+    if t['s'] == '(usize, usize)':
+        return True
+    if t['k'] == 'adt' and t.get('local') and not t.get('is_enum') and t.get('variants'):
+        fs = t['variants'][0]['fields']
+        return len(fs) == 2 and all(ctx.T[f['ty']]['s'] == 'usize' for f in fs)
+    return False
+
+
+def is_pair_val(ctx, a):
+    t = VAL[a]
+    if t[0] != 'agg' or len(t) != 5:
+        return False
+    return t[1] == 'tuple' or any(x.get('adt') == t[1] and x.get('local') and is_pair_ty(ctx, i) for i, x in enumerate(ctx.T) if x.get('adt') == t[1])
+
+
 def placement_fn(ctx):
-    """pure method returning (usize, usize) and taking a Key by value."""
+    """pure method returning a pair of shard ids and taking a Key by value."""
     for k, b in ctx.B.items():
-        if b['arg_count'] == 2 and ctx.T[b['locals'][0]['ty']]['s'] == '(usize, usize)' and ctx.T[b['locals'][2]['ty']].get('adt') == 'Key':
+        if b['arg_count'] == 2 and is_pair_ty(ctx, b['locals'][0]['ty']) and ctx.T[b['locals'][2]['ty']].get('adt') == 'Key':
             return k
     from ctx import RoleError
     raise RoleError('placement function (self, Key) -> (usize, usize) not found')
@@ -455,8 +473,7 @@ def r12_5(ctx):
 
 def r12_6(ctx):
     out = []
-    ks = [k for k, b in ctx.B.items() if b['arg_count'] == 2 and ctx.T[b['locals'][0]['ty']]['s'] == '(usize, usize)' and
-          ctx.T[b['locals'][2]['ty']]['s'] == '(usize, usize)']
+    ks = [k for k, b in ctx.B.items() if b['arg_count'] == 2 and is_pair_ty(ctx, b['locals'][0]['ty']) and is_pair_ty(ctx, b['locals'][2]['ty'])]
     ok = len(ks) == 1
     if ok:
         q = ctx.explore(ks[0], opaque='none', precise=True, tag='c12')
@@ -464,6 +481,9 @@ def r12_6(ctx):
         seen = set()
         for t in rets:
             v = q.g.term[t]['val']
+            if is_param(v, 2):
+                seen.add(('f0', 'f1'))      # the pair handed back as it came
+                continue
             if VAL[v][0] != 'agg':
                 ok = False
                 continue
@@ -494,7 +514,7 @@ def r12_6(ctx):
                 n += 1
                 args = c[2]
                 direct_key = any(VAL[a][0] == 'sym' and VAL[a][1] == 'param' and int(VAL[a][2]) in key_params for a in args)
-                pair_arg = any(VAL[a][0] == 'agg' and VAL[a][1] == 'tuple' for a in args)
+                pair_arg = any(is_pair_val(ctx, a) for a in args)
                 if not direct_key or pair_arg:
                     good = False
         out.append(inst('R12.6', 'unsorted pair|' + p, good and n > 0, 'lookup candidates come straight from the placement function of the key (load estimates not consulted)' if good and n else
